@@ -1,11 +1,30 @@
 import PsaDhcp.Proofs.CodeDhcpOpts
 import PsaDhcp.Proofs.CodeMisc
+import PsaDhcp.Proofs.CodeCor
 /-
 C12 on the CODE: `PsaDhcp.Gen.dhcpmsg.*` is regenerated from /repo's lib/dhcpmsg/*.go on every check
 by the translator /verif/xlate; the translated functions coincide with the models of `Props/C12.lean`.
 -/
 namespace PsaDhcp.Props.C12Code
 open PsaDhcp PsaDhcp.Go PsaDhcp.Code
+
+/-- `Decode` as written in Go (fixed header, hardware address copy, option walk with `continue`/`break`) is the
+model's `decode`: a reject becomes the error value, success the message; the walk never runs out of fuel. -/
+theorem code_decode (b : Bytes) : Gen.dhcpmsg.Decode b = liftDec msgToGen (decode b) := Proofs.CodeDhcp.Decode_eq b
+
+/-- `(Message).Assemble()`; the hypotheses are the Go array types `[64]byte` / `[128]byte`. -/
+theorem code_assemble (m : Gen.dhcpmsg.Message) (h1 : m.ServerHostName.length = 64) (h2 : m.BootFilename.length = 128) :
+    Gen.dhcpmsg.Message_Assemble m = .ok (Msg.assemble (msgOf m)) := Proofs.CodeDhcp.Message_Assemble_eq m h1 h2
+
+/-- No index or slice expression of the translated `Decode` is out of range, for any input. -/
+theorem code_decode_never_panics (b : Bytes) (site : String) : Gen.dhcpmsg.Decode b ≠ .error (.panic site) :=
+  Proofs.CodeCor.code_dhcp_decode_never_panics b site
+
+/-- The translated `Decode` accepts exactly the RFC 2131 layout + RFC 2132 option grammar, and returns its reading. -/
+theorem code_decode_iff_grammar (b : Bytes) (g : Gen.dhcpmsg.Message) :
+    Gen.dhcpmsg.Decode b = .ok (some g, none) ↔
+      ∃ m, msgToGen m = g ∧ 240 ≤ b.length ∧ Spec.FixedAt b m ∧ Spec.Area (b.drop 240) m.options :=
+  Proofs.CodeCor.code_dhcp_decode_iff_grammar b g
 
 /-- `DecodeOptions` with every typed accessor (`toUint8`, `toUint16`, `toDuration`, `toNetmask`, `toV4`,
 `toV4A`): the translated code is the model — hence `typed_exact` holds of the code. -/
